@@ -1,3 +1,5 @@
 import Bng.Spec.C08
+import Bng.Spec.C08Names
 import Bng.Audit
 #audit_module Bng.Spec.C08
+#audit_module Bng.Spec.C08Names
